@@ -9,7 +9,7 @@ from ..impl_dwt import T, N as NP
 
 PROP = 'C11'
 MODULE = 'WaveletsVerif.Properties.C11'
-THEOREMS = ['WV.C11.interleave4_get', 'WV.C11.colifilt1_raises_iff', 'WV.C11.invJ2_absent_high', 'WV.C11.DTCWTInverse_all_absent']
+THEOREMS = ['WV.C11.interleave4_get', 'WV.C11.colifilt1_raises_iff', 'WV.C11.invJ2_absent_high', 'WV.C11.DTCWTInverse_all_absent', 'WV.C11.colifilt1_eq_ref', 'WV.C11.branch_get']
 OPS = ['colifilt', 'rowifilt', 'c2q', 'inv_j1', 'inv_j2plus', 'DTCWTInverse']
 KF_MID = 'C11-absent-level-after-extension'
 
@@ -117,11 +117,34 @@ def oracle(ck, extended):
                     rt.guard(ck, oracle_absent, ck, g, low, highs, ab, sp, H, W)
 
 
+def spec_check(ck):
+    """Lean reference formula of colifilt (Spec/DtcwtRef.lean) <-> dtcwt.numpy.lowlevel.colifilt, exact on integers"""
+    import dtcwt.numpy.lowlevel as Rf
+    rng = ck.rng
+    lines, exp = [], []
+    for it in range(60 if ck.tier == 'quick' else 600):
+        m = 2 * rng.randint(1, 9); r = 2 * rng.randint(1, 8); hp = rng.randint(0, 1)
+        while True:
+            ha = gen.int_filter(rng, m, zero_ends=0.0); hb = gen.int_filter(rng, m, zero_ends=0.0)
+            sg = np.sum(ha * hb)
+            if (sg > 0 and not hp) or (sg < 0 and hp):          # the reference picks the tree order from this sign
+                break
+        x = gen.int_tensor(rng, (r,))
+        lines.append(proto.to_line('Q', 'spec_colifilt', [hp], [ha, hb, x]))
+        exp.append(Rf.colifilt(np.stack([x, x[::-1]], axis=1), ha, hb)[:, 0])      # two columns: the reference mishandles (r,1) inputs
+    outs = proto.run_driver(lines)
+    bad = [ln[:200] for ln, o, e in zip(lines, outs, exp) if o == 'raise' or not proto.equal_exact('Q', e, o[0])[0]]
+    ck.extra['spec_vs_reference'] = {'evaluations': len(lines), 'mismatches': len(bad)}
+    if bad:
+        raise RuntimeError('Lean reference formula of colifilt disagrees with the numpy dtcwt package (machinery error, not a verdict): ' + bad[0])
+
+
 def run(ck):
     std_run(ck, PROP, MODULE, THEOREMS, OPS, 320, 3000, oracle,
             rule='correspondence (exact over Q(sqrt2)): colifilt/rowifilt (both parities of m/2, both flags, odd sizes must raise), c2q, inv_j1, inv_j2plus with absent low/high inputs, '
                  'DTCWTInverse in all layouts with absent levels; oracle: real DTCWTInverse vs dtcwt inverse on arbitrary pyramids of forward-compatible shape (20 named pairs, integer filters), '
                  'and absent inputs (None and torch.tensor([])) vs explicit zeros for subsets of {low, level 1..J}; distinct by (J, shapes, filters) / (absent set, spelling, J, size)')
+    spec_check(ck)
 
 
 def replay(ck, path):
